@@ -1,14 +1,923 @@
-//! Suite `gen` (stub: replaced by the owner of the suite).
+//! Suite `gen` (C08, C09): the REAL generator + rustc + serde + runtime on grammar-directed
+//! interface definitions.
+//!
+//! Case kinds (every case carries the definition text AND the real parser's syntax tree of it):
+//!   (compile SRC)                              generator outcome, rustc verdict, emitted items/fns
+//!   (probe SRC ROOT (path f*) JSON)            from_value::<T>(json).map(to_value) for emitted type T
+//!   (call SRC xMethod MODE ARGS (script A*))   generated client <-> socketpair <-> generated proxy + recorder
+//!   (raw SRC REQUEST-JSON)                     raw request through VarlinkService::handle + generated proxy
+//!   (front WHICH SRC)                          build helper / tosource helper / CLI tool / proc macro
+//! SRC = (src x<text> (idl ..) | (rej parse|idl)).
+//!
+//! rustc dominates the cost: all definitions of a run go into ONE scratch package
+//! (<verif>/work/genprobe, shared target dir) with one bin per definition; see gen/build.rs.
+#[path = "gen/ast.rs"]
+pub mod ast;
+#[path = "gen/build.rs"]
+pub mod build;
+#[path = "gen/idlgen.rs"]
+pub mod idlgen;
+#[path = "gen/probe.rs"]
+pub mod probe;
+#[path = "gen/val.rs"]
+pub mod val;
+
+use crate::rng::Rng;
 use crate::sx::{self, Sx};
 use crate::{Case, Ctx, Suite};
+use ast::*;
+use probe::*;
+use serde_json::Value;
+use std::collections::{BTreeMap, HashMap};
+use std::sync::Mutex;
+use val::*;
 
 pub struct GenSuite;
 
-impl Suite for GenSuite {
-    fn generate(&self, _ctx: &Ctx) -> Vec<Case> {
-        Vec::new()
+// ------------------------------------------------------------------ in-process generator
+
+#[derive(Clone, Debug)]
+pub enum GenStatus {
+    Ok(String),
+    Rejected(&'static str),
+    Panic(String),
+}
+
+pub fn generate_inproc(text: &str, tosource: bool) -> GenStatus {
+    let mut w: Vec<u8> = Vec::new();
+    let r = std::panic::catch_unwind(std::panic::AssertUnwindSafe(|| {
+        let mut rd: &[u8] = text.as_bytes();
+        varlink_generator::generate(&mut rd, &mut w, tosource)
+    }));
+    match r {
+        Ok(Ok(())) => GenStatus::Ok(String::from_utf8_lossy(&w).to_string()),
+        Ok(Err(varlink_generator::Error::Parse(varlink_parser::Error::Idl(_)))) => GenStatus::Rejected("idl"),
+        Ok(Err(_)) => GenStatus::Rejected("parse"),
+        Err(e) => GenStatus::Panic(if let Some(s) = e.downcast_ref::<String>() {
+            s.clone()
+        } else if let Some(s) = e.downcast_ref::<&str>() {
+            s.to_string()
+        } else {
+            "?".into()
+        }),
     }
-    fn run(&self, _ctx: &Ctx, _input: &Sx) -> Sx {
-        sx::atom("stub")
+}
+
+pub fn src_sx(text: &str) -> Sx {
+    let p = match Idl::parse(text) {
+        Ok(i) => idl_sx(&i),
+        Err(k) => sx::tagged("rej", vec![sx::atom(k)]),
+    };
+    sx::tagged("src", vec![sx::xs(text), p])
+}
+
+fn src_text(s: &Sx) -> Option<String> {
+    let l = s.as_list()?;
+    if l.first()?.as_atom()? != "src" {
+        return None;
+    }
+    l.get(1)?.as_str()
+}
+
+// ------------------------------------------------------------------ case construction
+
+fn compile_case(text: &str) -> Sx {
+    sx::tagged("compile", vec![src_sx(text)])
+}
+fn probe_case(text: &str, e: &Emitted, j: &Value) -> Sx {
+    sx::tagged("probe", vec![src_sx(text), e.root.clone(), sx::tagged("path", e.path.iter().map(|p| sx::xs(p)).collect()), sx::json(j)])
+}
+fn call_case(text: &str, c: &CallCase) -> Sx {
+    sx::tagged(
+        "call",
+        vec![src_sx(text), sx::xs(&c.method), sx::atom(c.mode.clone()), val_sx(&c.args), sx::tagged("script", c.script.iter().map(action_sx).collect())],
+    )
+}
+fn raw_case(text: &str, req: &Value) -> Sx {
+    sx::tagged("raw", vec![src_sx(text), sx::json(req)])
+}
+fn front_case(which: &str, text: &str) -> Sx {
+    sx::tagged("front", vec![sx::atom(which), src_sx(text)])
+}
+
+fn parse_call(l: &[Sx]) -> Option<CallCase> {
+    Some(CallCase {
+        method: l.get(2)?.as_str()?,
+        mode: l.get(3)?.as_atom()?.to_string(),
+        args: sx_val(l.get(4)?)?,
+        script: l.get(5)?.as_list()?[1..].iter().map(sx_action).collect::<Option<Vec<_>>>()?,
+    })
+}
+
+/// replace the first float leaf by `bits` / the first `?object` by Some(null)
+fn inject(idl: &Idl, t: &Ty, v: &mut Val, what: &str, bits: u64) -> bool {
+    match (t, v) {
+        (Ty::Ref(n), v) => match idl.typedef(n) {
+            Some(td) => inject(idl, &td.def.clone(), v, what, bits),
+            None => false,
+        },
+        (Ty::Float, v @ Val::F(_)) if what == "float" => {
+            *v = Val::F(bits);
+            true
+        }
+        (Ty::Opt(i), v) if what == "optobj" && **i == Ty::Object => {
+            *v = Val::Some_(Box::new(Val::J(Value::Null)));
+            true
+        }
+        (Ty::Opt(i), Val::Some_(x)) => inject(idl, i, x, what, bits),
+        (Ty::Arr(i), Val::Arr(l)) => l.iter_mut().any(|x| inject(idl, i, x, what, bits)),
+        (Ty::Map(i), Val::Map(l)) => l.iter_mut().any(|(_, x)| inject(idl, i, x, what, bits)),
+        (Ty::Struct(fs), Val::Rec(l)) => {
+            for (f, ft) in fs {
+                if let Some((_, x)) = l.iter_mut().find(|(k, _)| k == f) {
+                    if inject(idl, ft, x, what, bits) {
+                        return true;
+                    }
+                }
+            }
+            false
+        }
+        _ => false,
+    }
+}
+
+fn gen_script(rng: &mut Rng, idl: &Idl, m: &Method, mode: &str) -> Vec<Action> {
+    let out_t = Ty::Struct(m.output.clone());
+    let mut script = Vec::new();
+    if mode == "more" {
+        for _ in 0..rng.below(4) {
+            script.push(Action::Reply(true, gen_val(rng, idl, &out_t, 3)));
+        }
+    }
+    let usable: Vec<&ErrorDef> = idl.errors.iter().filter(|e| inhabited(idl, &Ty::Struct(e.parm.clone()), 6)).collect();
+    if mode != "oneway" && !usable.is_empty() && rng.chance(1, 3) {
+        let e = *rng.pick(&usable);
+        script.push(Action::Error(e.name.clone(), gen_val(rng, idl, &Ty::Struct(e.parm.clone()), 3)));
+    } else {
+        script.push(Action::Reply(false, gen_val(rng, idl, &out_t, 3)));
+    }
+    script
+}
+
+/// probe / call / raw cases of one definition
+fn cases_for_program(rng: &mut Rng, text: &str, rich: bool, out: &mut Vec<Case>, origin: &str) {
+    let idl = match Idl::parse(text) {
+        Ok(i) => i,
+        Err(_) => return,
+    };
+    let tag = |t: &str| vec![format!("kind:{}", t), format!("origin:{}", origin)];
+    // probes
+    let ems = emitted_types(&idl);
+    let per_type = if rich { 3 } else { 1 };
+    let mut budget = if rich { 90 } else { 3 };
+    for e in &ems {
+        if budget == 0 {
+            break;
+        }
+        if !inhabited(&idl, &e.def, 6) {
+            // uninhabited (empty enum somewhere): only junk can be probed
+            out.push(Case { input: probe_case(text, e, &gen_json(rng, 2)), tags: tag("probe-junk") });
+            budget -= 1;
+            continue;
+        }
+        for k in 0..per_type {
+            if budget == 0 {
+                break;
+            }
+            budget -= 1;
+            let v = gen_val(rng, &idl, &e.def, 3);
+            let mut j = to_json(&idl, &e.def, &v, e.top);
+            let mut tags = tag("probe-valid");
+            if k > 0 {
+                let m = mutate_json(rng, &mut j);
+                tags = tag("probe-near");
+                tags.push(m.to_string());
+            }
+            out.push(Case { input: probe_case(text, e, &j), tags });
+        }
+    }
+    if !rich {
+        return;
+    }
+    // calls
+    for m in &idl.methods {
+        let in_t = Ty::Struct(m.input.clone());
+        let out_t = Ty::Struct(m.output.clone());
+        if !inhabited(&idl, &in_t, 6) || !inhabited(&idl, &out_t, 6) {
+            continue;
+        }
+        for mode in ["call", "more", "oneway", "call"] {
+            let args = gen_val(rng, &idl, &in_t, 3);
+            let script = gen_script(rng, &idl, m, mode);
+            let c = CallCase { method: m.name.clone(), mode: mode.to_string(), args, script };
+            let mut tags = tag("call");
+            tags.push(format!("mode:{}", mode));
+            if c.script.iter().any(|a| matches!(a, Action::Error(..))) {
+                tags.push("script:error".into());
+            }
+            out.push(Case { input: call_case(text, &c), tags });
+        }
+        // raw requests: valid, missing parameters, ill-typed / near-valid parameters, flags
+        let full = format!("{}.{}", idl.name, m.name);
+        let good = to_json(&idl, &in_t, &gen_val(rng, &idl, &in_t, 3), true);
+        let mk = |params: Option<Value>, extra: Option<(&str, Value)>| {
+            let mut o = serde_json::Map::new();
+            o.insert("method".into(), Value::from(full.clone()));
+            if let Some(p) = params {
+                o.insert("parameters".into(), p);
+            }
+            if let Some((k, v)) = extra {
+                o.insert(k.into(), v);
+            }
+            Value::Object(o)
+        };
+        out.push(Case { input: raw_case(text, &mk(Some(good.clone()), None)), tags: tag("raw-valid") });
+        out.push(Case { input: raw_case(text, &mk(None, None)), tags: tag("raw-missing-parameters") });
+        out.push(Case { input: raw_case(text, &mk(Some(Value::Null), None)), tags: tag("raw-null-parameters") });
+        for _ in 0..2 {
+            let mut j = good.clone();
+            let mt = mutate_json(rng, &mut j);
+            let mut tags = tag("raw-near");
+            tags.push(mt.to_string());
+            let extra = match rng.below(4) {
+                0 => Some(("more", Value::Bool(true))),
+                1 => Some(("oneway", Value::Bool(true))),
+                _ => None,
+            };
+            out.push(Case { input: raw_case(text, &mk(Some(j), extra)), tags });
+        }
+    }
+    let mut o = serde_json::Map::new();
+    o.insert("method".into(), Value::from(format!("{}.NoSuchMethod9", idl.name)));
+    o.insert("parameters".into(), Value::Object(serde_json::Map::new()));
+    out.push(Case { input: raw_case(text, &Value::Object(o)), tags: tag("raw-unknown-method") });
+}
+
+fn repo_idls() -> Vec<String> {
+    let mut v = Vec::new();
+    for p in [
+        "/repo/varlink_generator/tests/org.example.complex.varlink",
+        "/repo/examples/ping/src/org.example.ping.varlink",
+        "/repo/examples/more/src/org.example.more.varlink",
+        "/repo/examples/example/src/org.example.network.varlink",
+        "/repo/varlink-certification/src/org.varlink.certification.varlink",
+        "/repo/varlink_stdinterfaces/src/org.varlink.resolver.varlink",
+        "/repo/varlink_stdinterfaces/src/org.varlink.service.varlink",
+    ] {
+        if let Ok(t) = std::fs::read_to_string(p) {
+            v.push(t);
+        }
+    }
+    v
+}
+
+/// hand-picked witnesses: one reproducing definition per known class (and near misses)
+pub fn witnesses() -> Vec<(&'static str, &'static str)> {
+    vec![
+        ("raw-ident", "interface org.example.w\nmethod Foo(self: int) -> ()\n"),
+        ("raw-ident", "interface org.example.w\ntype Self (a: int)\nmethod Foo() -> ()\n"),
+        ("raw-ident", "interface org.example.w\ntype E (a, crate)\nmethod Foo() -> ()\n"),
+        ("raw-ident", "interface org.example.w\nmethod Foo() -> (super: string)\n"),
+        ("err-anon-dup", "interface org.example.w\nmethod Foo() -> ()\nerror Bad (reason: (a, b))\n"),
+        ("err-anon-dup", "interface org.example.w\nmethod Foo() -> ()\nerror Bad (x: []?(a: int))\n"),
+        ("err-anon-dup", "interface org.example.w\nmethod Foo() -> ()\nerror Bad (x: ())\n"),
+        ("kw-fn", "interface org.example.w\nmethod Type() -> ()\n"),
+        ("kw-fn", "interface org.example.w\nmethod MATCH(a: int) -> (b: int)\n"),
+        ("kw-fn", "interface org.example.w\nmethod Foo() -> ()\nerror Self ()\n"),
+        ("snake-dup", "interface org.example.w\nmethod GetID() -> ()\nmethod GetId() -> ()\n"),
+        ("snake-dup", "interface org.example.w\nmethod CallUpgraded() -> ()\n"),
+        ("snake-dup", "interface org.example.w\nmethod Foo() -> ()\nerror FooBar ()\nerror FooBAR ()\n"),
+        ("reserved-type", "interface org.example.w\ntype Error (a: int)\nmethod Foo() -> ()\n"),
+        ("reserved-type", "interface org.example.w\ntype Arc (a: int)\nmethod Foo() -> ()\n"),
+        ("reserved-type", "interface org.example.w\ntype Option (a, b)\nmethod Foo() -> ()\n"),
+        ("reserved-type", "interface org.example.w\ntype String (a: int)\nmethod Foo() -> ()\n"),
+        ("reserved-type", "interface org.example.w\ntype Vec ()\nmethod Foo() -> ()\n"),
+        ("path-dup", "interface org.example.w\ntype T (a_b: (x: int), a: (b: (y: int)))\nmethod Foo(t: T) -> ()\n"),
+        ("path-dup", "interface org.example.w\ntype Call (Foo: (a: int))\nmethod Foo() -> ()\n"),
+        ("path-dup", "interface org.example.w\nmethod Call(a: int) -> (b: int)\nmethod Args() -> ()\n"),
+        ("path-dup", "interface org.example.w\nerror Call (a: int)\nmethod Args() -> ()\n"),
+        ("opt-cycle", "interface org.example.w\ntype T (next: ?T)\nmethod Foo(t: T) -> ()\n"),
+        ("opt-cycle", "interface org.example.w\ntype A (b: ?B)\ntype B (a: ?A)\nmethod Foo(t: A) -> ()\n"),
+        ("opt-cycle", "interface org.example.w\ntype T (a: (next: ?T))\nmethod Foo(t: T) -> ()\n"),
+        ("err-fn-shadow", "interface org.example.w\nmethod Foo() -> ()\nerror Struct (a: int)\n"),
+        ("err-fn-shadow", "interface org.example.w\nmethod Foo() -> ()\nerror MethodNotFound ()\n"),
+        ("err-fn-shadow", "interface org.example.w\nmethod Foo(a: int) -> ()\nerror InvalidParameter ()\n"),
+        ("param-shadow", "interface org.example.w\nmethod Foo(Some: int) -> ()\n"),
+        ("param-shadow", "interface org.example.w\nmethod Foo() -> (None: int)\n"),
+        ("param-shadow", "interface org.example.w\nmethod Foo() -> ()\nerror Bad (Ok: int)\n"),
+        ("param-shadow", "interface org.example.w\nmethod Foo(Err: string) -> ()\n"),
+        ("param-shadow", "interface org.example.w\nmethod Foo(Error: string) -> ()\n"),
+        ("ok", "interface org.example.w\ntype T (Some: int, None: int, Ok: int, Err: int, Error: int, e: (Some, None, Ok, Err, Error))\nmethod Foo(t: T, Option: int, ErrorKind: int, new: int, Result: int, VarlinkClient: int) -> (Vec: int)\n"),
+        ("param-variant", "interface org.example.w\ntype State (name, enum, ref)\nmethod Foo() -> ()\nerror Oops (enum: State)\n"),
+        ("param-variant", "interface org.example.w\nmethod Foo(kind: (kind, other)) -> ()\n"),
+        ("param-variant", "interface org.example.w\ntype Interface (interface, b, c)\nmethod Foo() -> (interface: Interface)\n"),
+        ("ok", "interface org.example.w\ntype State (a, b)\ntype S (a: State, b: ?State)\nmethod Foo(a: ?State, b: []State, s: S) -> (b: [string]State)\n"),
+        ("ok", "interface org.example.w\nmethod Foo() -> ()\nerror InvalidParameter ()\n"),
+        ("ok", "interface org.example.w\nmethod Foo(call: int) -> (call: int)\n"),
+        ("ok", "interface org.example.w\ntype T (next: []T, m: [string]T, o: ?[]T)\nmethod Foo(t: T) -> ()\n"),
+        ("ok", "interface org.example.w\nmethod Foo() -> ()\nerror Bad (s: [string]())\n"),
+        ("ok", "interface org.example.w\nmethod Union() -> ()\nmethod Default() -> ()\nmethod Call(a: int) -> (b: int)\n"),
+        ("ok", "interface org.example.w\ntype Into (a: int)\ntype Some (x, y)\ntype Call (Foo: int)\nmethod Foo(i: Into, s: Some) -> (c: ?Call)\n"),
+        ("ok", "interface org.example.w\nerror OnlyAnError (a: int)\n"),
+        ("not-well-formed", "interface org.example.w\nmethod Foo(a: int, a: int) -> ()\n"),
+        ("not-well-formed", "interface org.example.w\nmethod Foo(e: Nope) -> ()\n"),
+        ("not-well-formed", "interface org.example.w\ntype T (next: T)\nmethod Foo(t: T) -> ()\n"),
+    ]
+}
+
+/// two known classes (or a class and an ill-formed feature) in one definition: which failure ranks first
+pub fn pair_witnesses() -> Vec<(&'static str, &'static str)> {
+    vec![
+        ("From+Option", "interface org.example.w\ntype From (a: int)\ntype Option (a: int)\nmethod Foo() -> ()\n"),
+        ("From+ErrStruct", "interface org.example.w\ntype From (a: int)\nmethod Foo() -> ()\nerror Struct ()\n"),
+        ("Option+optcycle", "interface org.example.w\ntype Option (a: int)\ntype T (n: ?T)\nmethod Foo() -> ()\n"),
+        ("Option+ErrStruct", "interface org.example.w\ntype Option (a: int)\nmethod Foo() -> ()\nerror Struct ()\n"),
+        ("String+ErrStruct", "interface org.example.w\ntype String (a: int)\nmethod Foo() -> ()\nerror Struct ()\n"),
+        ("optcycle+ErrStruct", "interface org.example.w\ntype T (n: ?T)\nmethod Foo() -> ()\nerror Struct ()\n"),
+        ("SomeParam+From", "interface org.example.w\ntype From (a: int)\nmethod Foo(Some: int) -> ()\n"),
+        ("SomeParam+optcycle", "interface org.example.w\ntype T (n: ?T)\nmethod Foo(Some: int) -> ()\n"),
+        ("SomeParam+ErrStruct", "interface org.example.w\nmethod Foo(Some: int) -> ()\nerror Struct ()\n"),
+        ("NoneParam+ErrStruct", "interface org.example.w\nmethod Foo(None: int) -> ()\nerror Struct ()\n"),
+        ("NoneParam+optcycle", "interface org.example.w\ntype T (n: ?T)\nmethod Foo(None: int) -> ()\n"),
+        ("dupfieldT+From", "interface org.example.w\ntype From (a: int)\ntype T (a: int, a: int)\nmethod Foo() -> ()\n"),
+        ("dupfieldT+Option", "interface org.example.w\ntype Option (a: int)\ntype T (a: int, a: int)\nmethod Foo() -> ()\n"),
+        ("dupfieldT+optcycle", "interface org.example.w\ntype T (a: int, a: int)\ntype U (n: ?U)\nmethod Foo() -> ()\n"),
+        ("dupfieldT", "interface org.example.w\ntype T (a: int, a: int)\nmethod Foo() -> ()\n"),
+        ("dupfieldAnon", "interface org.example.w\nmethod Foo(x: (a: int, a: int)) -> ()\n"),
+        ("dupvariant", "interface org.example.w\ntype E (a, a)\nmethod Foo() -> ()\n"),
+        ("lint+ErrStruct", "interface org.example.w\ntype S (on, off)\nmethod Foo(on: S) -> ()\nerror Struct ()\n"),
+        ("lint+NoneParam", "interface org.example.w\ntype S (on, off)\nmethod Foo(on: S, None: int) -> ()\n"),
+        ("lint+String", "interface org.example.w\ntype S (on, off)\ntype String (a: int)\nmethod Foo(on: S) -> ()\n"),
+        ("kw+From", "interface org.example.w\ntype From (a: int)\nmethod Type() -> ()\n"),
+        ("kw+ErrStruct", "interface org.example.w\nmethod Type() -> ()\nerror Struct ()\n"),
+        ("unres+From", "interface org.example.w\ntype From (a: int)\nmethod Foo(x: Nope) -> ()\n"),
+        ("unres+Option", "interface org.example.w\ntype Option (a: int)\nmethod Foo(x: Nope) -> ()\n"),
+        ("unres+optcycle", "interface org.example.w\ntype T (n: ?T)\nmethod Foo(x: Nope) -> ()\n"),
+        ("dup+From", "interface org.example.w\ntype From (a: int)\ntype Error (a: int)\nmethod Foo() -> ()\n"),
+        ("Vec+Box", "interface org.example.w\ntype Vec (a: int)\ntype Box (a: int)\nmethod Foo() -> ()\n"),
+        ("String+NoneParam", "interface org.example.w\ntype String (a: int)\nmethod Foo(None: int) -> ()\n"),
+        ("ErrParamNone", "interface org.example.w\nmethod Foo() -> ()\nerror Bad (None: int)\n"),
+        ("OutParamErr", "interface org.example.w\nmethod Foo() -> (Err: int)\n"),
+    ]
+}
+
+const EXCL_IDL: &str = "interface org.example.x\nmethod F(x: float, o: ?object) -> (y: float, p: ?object)\nerror Bad (z: float)\n";
+
+fn excluded_cases(out: &mut Vec<Case>) {
+    let idl = Idl::parse(EXCL_IDL).unwrap();
+    let nan = f64::NAN.to_bits();
+    let inf = f64::INFINITY.to_bits();
+    let rec = |x: u64, o: Val, a: &str, b: &str| Val::Rec(vec![(a.to_string(), Val::F(x)), (b.to_string(), o)]);
+    let one = 1.5f64.to_bits();
+    let mk = |args: Val, script: Vec<Action>, mode: &str, t: &str| Case {
+        input: call_case(EXCL_IDL, &CallCase { method: "F".into(), mode: mode.into(), args, script }),
+        tags: vec!["kind:call".into(), format!("excluded:{}", t), "origin:witness".into()],
+    };
+    let _ = &idl;
+    out.push(mk(rec(nan, Val::None_, "x", "o"), vec![Action::Reply(false, rec(one, Val::None_, "y", "p"))], "call", "nan-arg"));
+    out.push(mk(rec(inf, Val::None_, "x", "o"), vec![Action::Reply(false, rec(one, Val::None_, "y", "p"))], "oneway", "inf-arg"));
+    out.push(mk(rec(one, Val::None_, "x", "o"), vec![Action::Reply(false, rec(nan, Val::None_, "y", "p"))], "call", "nan-reply"));
+    out.push(mk(rec(one, Val::None_, "x", "o"), vec![Action::Error("Bad".into(), Val::Rec(vec![("z".into(), Val::F(nan))]))], "call", "nan-error"));
+    out.push(mk(rec(one, Val::Some_(Box::new(Val::J(Value::Null))), "x", "o"), vec![Action::Reply(false, rec(one, Val::None_, "y", "p"))], "call", "opt-object-null-arg"));
+    out.push(mk(rec(one, Val::None_, "x", "o"), vec![Action::Reply(false, rec(one, Val::Some_(Box::new(Val::J(Value::Null))), "y", "p"))], "more", "opt-object-null-reply"));
+    // the same points at the serde level
+    for e in emitted_types(&idl) {
+        if e.rust == "F_Args" {
+            out.push(Case { input: probe_case(EXCL_IDL, &e, &serde_json::json!({"x": null})), tags: vec!["kind:probe-near".into(), "excluded:null-float".into()] });
+            out.push(Case { input: probe_case(EXCL_IDL, &e, &serde_json::json!({"x": 1, "o": null})), tags: vec!["kind:probe-near".into(), "excluded:opt-object-null".into()] });
+        }
+    }
+}
+
+fn all_cases(ctx: &Ctx) -> Vec<Case> {
+    let mut rng = Rng::new(ctx.seed);
+    let mut cases: Vec<Case> = Vec::new();
+    // corpus first
+    let corpus = if std::env::var("VERIF_GEN_WRITE_CORPUS").is_ok() { Err(()) } else { std::fs::read_to_string(concat!(env!("CARGO_MANIFEST_DIR"), "/corpus/gen.txt")).map_err(|_| ()) };
+    if let Ok(txt) = corpus {
+        for l in txt.lines() {
+            if l.trim_start().starts_with('(') {
+                if let Some(s) = sx::parse(l) {
+                    cases.push(Case { input: s, tags: vec!["origin:corpus".into()] });
+                }
+            }
+        }
+    }
+    // built-in witnesses (the corpus file is written from these; they are cheap to compile)
+    for (class, text) in witnesses() {
+        cases.push(Case { input: compile_case(text), tags: vec!["kind:compile".into(), "origin:witness".into(), format!("class:{}", class)] });
+        let mut r2 = rng.fork();
+        cases_for_program(&mut r2, text, class == "ok", &mut cases, "witness");
+    }
+    excluded_cases(&mut cases);
+    // the repository's own definitions
+    for text in repo_idls() {
+        cases.push(Case { input: compile_case(&text), tags: vec!["kind:compile".into(), "origin:repo".into()] });
+        let mut r2 = rng.fork();
+        cases_for_program(&mut r2, &text, true, &mut cases, "repo");
+    }
+    // grammar-directed programs
+    let (n_benign, n_hostile, n_reject) = if ctx.thorough { (115, 45, 60) } else { (9, 4, 12) };
+    let mut texts: Vec<String> = Vec::new();
+    for k in 0..n_benign {
+        let mut r2 = rng.fork();
+        let anon_err = k % 6 == 5; // anonymous types in error parameters are part of the quantifier (known finding)
+        let idl = idlgen::benign(&mut r2, k, &idlgen::GenOpts { max_depth: 4, anon_in_errors: anon_err });
+        let header = match k % 4 {
+            0 => String::new(),
+            1 => "# generated definition\n# second line \u{e4}\u{20ac}\n".to_string(),
+            2 => "\n\n  # indented comment with \"quotes\" and \\ backslash\n".to_string(),
+            _ => "#\n".to_string(),
+        };
+        let text = idl_text(&idl, &header);
+        cases.push(Case { input: compile_case(&text), tags: vec!["kind:compile".into(), "origin:benign".into()] });
+        cases_for_program(&mut r2, &text, true, &mut cases, "benign");
+        texts.push(text);
+    }
+    for k in 0..n_hostile {
+        let mut r2 = rng.fork();
+        let class = if ctx.thorough { idlgen::HOSTILE[k % idlgen::HOSTILE.len()] } else { *r2.pick(idlgen::HOSTILE) };
+        let idl = idlgen::hostile(&mut r2, 1000 + k, class);
+        let text = idl_text(&idl, "");
+        cases.push(Case { input: compile_case(&text), tags: vec!["kind:compile".into(), "origin:hostile".into(), format!("inject:{}", class)] });
+        cases_for_program(&mut r2, &text, class.starts_with("ok:"), &mut cases, "hostile");
+    }
+    // pairs of classes (thorough): which failing phase is reported first
+    if ctx.thorough {
+        for (label, text) in pair_witnesses() {
+            cases.push(Case { input: compile_case(text), tags: vec!["kind:compile".into(), "origin:pair-witness".into(), format!("pair:{}", label)] });
+        }
+        let bad: Vec<&str> = idlgen::HOSTILE.iter().cloned().filter(|c| !c.starts_with("ok:")).collect();
+        for k in 0..40 {
+            let mut r2 = rng.fork();
+            let a = *r2.pick(&bad);
+            let b = *r2.pick(&bad);
+            let idl = idlgen::hostile2(&mut r2, 2000 + k, a, b);
+            let text = idl_text(&idl, "");
+            if Idl::parse(&text).is_ok() {
+                cases.push(Case { input: compile_case(&text), tags: vec!["kind:compile".into(), "origin:hostile-pair".into(), format!("inject:{}", a), format!("inject:{}", b)] });
+            }
+        }
+    }
+    // front-ends on accepted definitions
+    let fronts = ["build", "tosource", "bin", "bin-stdin"];
+    for (i, text) in texts.iter().take(if ctx.thorough { 12 } else { 3 }).enumerate() {
+        for w in fronts {
+            cases.push(Case { input: front_case(w, text), tags: vec!["kind:front".into(), format!("front:{}", w), "parse:accepted".into()] });
+        }
+        if i < 2 {
+            cases.push(Case { input: front_case("derive", text), tags: vec!["kind:front".into(), "front:derive".into(), "parse:accepted".into()] });
+        }
+    }
+    for w in ["build", "tosource", "bin", "derive"] {
+        cases.push(Case { input: front_case(w, witnesses()[0].1), tags: vec!["kind:front".into(), format!("front:{}", w), "gen:panic".into()] });
+    }
+    // rejected texts
+    let base: Vec<String> = if texts.is_empty() { repo_idls() } else { texts.clone() };
+    let mut nrej = 0;
+    let mut guard = 0;
+    while nrej < n_reject && guard < 2000 {
+        guard += 1;
+        let t = rng.pick(&base).clone();
+        let (mt, tag) = idlgen::mutate_text(&mut rng, &t);
+        let w = if nrej % 7 == 6 { "derive" } else { fronts[nrej % 4] };
+        if mt.contains("\"#") {
+            continue;
+        }
+        match Idl::parse(&mt) {
+            Err(k) => {
+                nrej += 1;
+                cases.push(Case { input: front_case(w, &mt), tags: vec!["kind:front".into(), format!("front:{}", w), format!("parse:rejected-{}", k), format!("mutation:{}", tag)] });
+            }
+            Ok(_) => {
+                // still accepted: an ordinary program
+                cases.push(Case { input: compile_case(&mt), tags: vec!["kind:compile".into(), "origin:mutant-accepted".into()] });
+            }
+        }
+    }
+    // ad-hoc definitions for experiments: VERIF_GEN_EXTRA=<file of `label<TAB>text with \n escapes`>
+    if let Ok(p) = std::env::var("VERIF_GEN_EXTRA") {
+        if let Ok(txt) = std::fs::read_to_string(p) {
+            for l in txt.lines() {
+                if let Some((label, t)) = l.split_once('\t') {
+                    let text = t.replace("\\n", "\n");
+                    cases.push(Case { input: compile_case(&text), tags: vec!["kind:compile".into(), format!("extra:{}", label)] });
+                }
+            }
+        }
+    }
+    // a case line occurs once (corpus lines and built-in witnesses overlap)
+    let mut seen = std::collections::HashSet::new();
+    cases.retain(|c| seen.insert(c.input.render()));
+    cases
+}
+
+// ------------------------------------------------------------------ running a batch
+
+static PREPARED: Mutex<Option<HashMap<String, String>>> = Mutex::new(None);
+static PLANNED: Mutex<Vec<String>> = Mutex::new(Vec::new());
+
+struct Prog {
+    text: String,
+    status: GenStatus,
+    idl: Option<Idl>,
+    stem: String,
+    calls: Vec<(usize, CallCase)>,
+}
+
+fn category(errors: &[(String, String, bool, bool)]) -> Sx {
+    let any_gen = errors.iter().any(|e| e.2);
+    if !any_gen {
+        return sx::atom("harness-error");
+    }
+    let has = |codes: &[&str]| errors.iter().any(|e| codes.contains(&e.0.as_str()));
+    let cat = if errors.iter().any(|e| e.0.is_empty() && e.1.starts_with("expected identifier, found")) {
+        "syntax".to_string()
+    } else if has(&["E0428", "E0255", "E0124", "E0415"]) {
+        "dup".into()
+    } else if has(&["E0412", "E0425", "E0433"]) {
+        "unresolved".into()
+    } else if has(&["E0107", "E0404", "E0308", "E0053", "E0530"]) {
+        // before `infinite`/`ambiguous`: a shadowed `Option`/`From` hides those (nothing hides these)
+        "shadow".into()
+    } else if has(&["E0072"]) {
+        "infinite".into()
+    } else if has(&["E0034"]) {
+        "ambiguous".into()
+    } else if has(&["E0170"]) {
+        "lint".into()
+    } else {
+        let mut c: Vec<String> = errors.iter().map(|e| if e.0.is_empty() { "nocode".to_string() } else { e.0.clone() }).collect();
+        c.sort();
+        c.dedup();
+        format!("other-{}", c.join("-"))
+    };
+    sx::tagged("fail", vec![sx::atom(cat)])
+}
+
+fn items_sx(output: &str) -> (Sx, Sx) {
+    let (mut items, mut traits) = build::scan_items(output);
+    items.sort_by(|a, b| (a.1.as_bytes(), a.0.as_bytes()).cmp(&(b.1.as_bytes(), b.0.as_bytes())));
+    traits.sort_by(|a, b| a.0.as_bytes().cmp(b.0.as_bytes()));
+    let i = sx::tagged("items", items.iter().map(|(k, n)| sx::list(vec![sx::atom(k.clone()), sx::xs(n)])).collect());
+    let f = sx::tagged(
+        "fns",
+        traits
+            .iter()
+            .map(|(t, fs)| {
+                let mut fs = fs.clone();
+                fs.sort();
+                let mut l = vec![sx::xs(t)];
+                l.extend(fs.iter().map(|f| sx::xs(f)));
+                sx::list(l)
+            })
+            .collect(),
+    );
+    (i, f)
+}
+
+fn run_tool(cmd: &mut std::process::Command) -> (Option<i32>, Vec<u8>, String) {
+    match cmd.output() {
+        Ok(o) => (o.status.code(), o.stdout, String::from_utf8_lossy(&o.stderr).to_string()),
+        Err(e) => (None, Vec::new(), format!("spawn failed: {}", e)),
+    }
+}
+
+fn status_of(code: Option<i32>, stderr: &str) -> &'static str {
+    if code == Some(0) {
+        "ok"
+    } else if stderr.contains("panicked at") {
+        "panic"
+    } else {
+        "err"
+    }
+}
+
+fn front_obs(which: &str, text: &str, derive_res: &BTreeMap<String, build::BinResult>) -> Sx {
+    let accepted = match Idl::parse(text) {
+        Ok(_) => sx::atom("ok"),
+        Err(k) => sx::tagged("rej", vec![sx::atom(k)]),
+    };
+    let dir = build::work_dir().join("front").join(format!("{:016x}-{}", build::fnv(text.as_bytes()), which));
+    let _ = std::fs::remove_dir_all(&dir);
+    let _ = std::fs::create_dir_all(dir.join("out"));
+    let input = dir.join("org.example.input.varlink");
+    std::fs::write(&input, text).expect("front input");
+    let reference = |tosource: bool| match generate_inproc(text, tosource) {
+        GenStatus::Ok(s) => Some(s),
+        _ => None,
+    };
+    let (status, emitted, same): (&str, bool, Option<bool>) = match which {
+        "build" => {
+            let mut c = std::process::Command::new(build::bin_path("fe_build"));
+            c.arg("many").arg(dir.join("out")).arg(&input);
+            let (code, _, err) = run_tool(&mut c);
+            let produced = std::fs::read_to_string(dir.join("out").join("org.example.input.rs")).unwrap_or_default();
+            (status_of(code, &err), !produced.is_empty(), reference(false).map(|r| r == produced))
+        }
+        "tosource" => {
+            let mut c = std::process::Command::new(build::bin_path("fe_build"));
+            c.arg("tosource").arg(dir.join("out")).arg(&input);
+            let (code, _, err) = run_tool(&mut c);
+            let produced = std::fs::read_to_string(dir.join("org_example_input.rs")).unwrap_or_default();
+            (status_of(code, &err), !produced.is_empty(), reference(true).map(|r| r == produced))
+        }
+        "bin" | "bin-stdin" => {
+            let mut c = std::process::Command::new(build::target_dir().join("debug").join("varlink-rust-generator"));
+            c.arg("--nosource");
+            if which == "bin" {
+                c.arg(&input);
+            } else {
+                c.arg("-").stdin(std::fs::File::open(&input).expect("front input"));
+            }
+            let (code, out, err) = run_tool(&mut c);
+            let produced = String::from_utf8_lossy(&out).to_string();
+            (status_of(code, &err), !produced.is_empty(), reference(false).map(|r| r == produced))
+        }
+        _ => {
+            // derive: the bin d<hash> of this batch
+            let stem = format!("d{:016x}", build::fnv(text.as_bytes()));
+            match derive_res.get(&stem) {
+                Some(r) if r.built => ("ok", true, None),
+                Some(r) => {
+                    let msg: String = r.errors.iter().map(|e| e.1.clone()).collect::<Vec<_>>().join("\n");
+                    if msg.contains("proc macro panicked") || msg.contains("proc-macro") && msg.contains("panicked") {
+                        if msg.contains("Parse(") || msg.contains("Idl(") || msg.contains("Parse {") {
+                            ("err", false, None)
+                        } else {
+                            ("panic", false, None)
+                        }
+                    } else {
+                        ("rustc-fail", true, None)
+                    }
+                }
+                None => ("not-built", false, None),
+            }
+        }
+    };
+    sx::tagged(
+        "front",
+        vec![accepted, sx::atom(status), sx::boolean(emitted), match same {
+            None => sx::atom("-"),
+            Some(b) => sx::boolean(b),
+        }],
+    )
+}
+
+fn prepare(cases: &[Sx]) -> HashMap<String, String> {
+    // result cache: the same batch (C08 then C09, same seed and tier) is executed once
+    let lines: Vec<String> = cases.iter().map(|c| c.render()).collect();
+    let mut h = build::fnv(include_str!("gen_rt_lib.rs").as_bytes());
+    for l in &lines {
+        h = h.wrapping_mul(31).wrapping_add(build::fnv(l.as_bytes()));
+    }
+    for f in ["/repo/varlink_generator/src/lib.rs", "/repo/varlink/src/lib.rs", "/repo/varlink_derive/src/lib.rs", "/repo/varlink_parser/src/lib.rs", "/repo/varlink_parser/src/varlink_grammar.rs", "/repo/varlink/src/client.rs", "/repo/varlink/src/server.rs"] {
+        h = h.wrapping_mul(31).wrapping_add(build::fnv(&std::fs::read(f).unwrap_or_default()));
+    }
+    h = h.wrapping_mul(31).wrapping_add(build::fnv(&std::fs::read(std::env::current_exe().unwrap()).unwrap_or_default()));
+    let cache = build::work_dir().join("results").join(format!("{:016x}.txt", h));
+    if std::env::var("VERIF_GEN_NOCACHE").is_err() {
+        if let Ok(txt) = std::fs::read_to_string(&cache) {
+            let v: Vec<&str> = txt.lines().collect();
+            if v.len() == lines.len() {
+                return lines.iter().cloned().zip(v.into_iter().map(|s| s.to_string())).collect();
+            }
+        }
+    }
+
+    // 1. programs
+    let mut progs: BTreeMap<String, Prog> = BTreeMap::new();
+    let mut derive_texts: Vec<String> = Vec::new();
+    for c in cases {
+        let l = match c.as_list() {
+            Some(l) => l,
+            None => continue,
+        };
+        let kind = l.first().and_then(|x| x.as_atom()).unwrap_or("");
+        if kind == "front" {
+            if l.get(1).and_then(|x| x.as_atom()) == Some("derive") {
+                if let Some(t) = l.get(2).and_then(src_text) {
+                    if !derive_texts.contains(&t) {
+                        derive_texts.push(t);
+                    }
+                }
+            }
+            continue;
+        }
+        let text = match l.get(1).and_then(src_text) {
+            Some(t) => t,
+            None => continue,
+        };
+        let p = progs.entry(text.clone()).or_insert_with(|| Prog { status: generate_inproc(&text, false), idl: Idl::parse(&text).ok(), text: text.clone(), stem: String::new(), calls: Vec::new() });
+        if kind == "call" {
+            if let Some(cc) = parse_call(l) {
+                let k = p.calls.len();
+                p.calls.push((k, cc));
+            }
+        }
+    }
+    let mut bins = Vec::new();
+    for p in progs.values_mut() {
+        if let (GenStatus::Ok(_), Some(idl)) = (&p.status, &p.idl) {
+            let mut key = p.text.clone();
+            for (_, c) in &p.calls {
+                key.push_str(&call_case("", c).render());
+            }
+            p.stem = format!("p{:016x}", build::fnv(key.as_bytes()));
+            bins.push(build::BinSpec { stem: p.stem.clone(), idl_text: p.text.clone(), source: bin_source(idl, &p.stem, &p.calls) });
+        }
+    }
+    let derives: Vec<build::DeriveSpec> = derive_texts.iter().map(|t| build::DeriveSpec { stem: format!("d{:016x}", build::fnv(t.as_bytes())), idl_text: t.clone() }).collect();
+    build::write_package(&bins, &derives);
+    let mut stems: Vec<String> = bins.iter().map(|b| b.stem.clone()).collect();
+    stems.extend(derives.iter().map(|d| d.stem.clone()));
+    let built = match build::cargo_build(&stems) {
+        Ok(b) => b,
+        Err(e) => {
+            eprintln!("{}", e);
+            std::process::exit(3);
+        }
+    };
+
+    // diagnostics of this batch, for the human reader
+    {
+        let mut m = String::new();
+        for p in progs.values() {
+            m.push_str(&format!("{}\t{}\n", p.stem, p.text.replace('\n', " | ")));
+        }
+        let _ = std::fs::write(build::work_dir().join("stems.txt"), m);
+    }
+    {
+        let mut d = String::new();
+        for (stem, r) in &built {
+            for e in &r.errors {
+                d.push_str(&format!("{} [{}] gen={} harness={} {}\n", stem, e.0, e.2, e.3, e.1.replace('\n', " ")));
+            }
+        }
+        if std::env::var("VERIF_GEN_DIAG_APPEND").is_ok() {
+            use std::io::Write;
+            if let Ok(mut f) = std::fs::OpenOptions::new().create(true).append(true).open(build::work_dir().join("diagnostics.log")) {
+                let _ = f.write_all(d.as_bytes());
+            }
+        }
+        let _ = std::fs::write(build::work_dir().join("last-diagnostics.txt"), d);
+    }
+
+    // 2. commands per program, in case order
+    let mut cmds: BTreeMap<String, Vec<(usize, String)>> = BTreeMap::new(); // stem -> (case index, command)
+    let mut call_counter: BTreeMap<String, usize> = BTreeMap::new();
+    let mut obs: Vec<Option<String>> = vec![None; cases.len()];
+    for (ci, c) in cases.iter().enumerate() {
+        let l = match c.as_list() {
+            Some(l) => l,
+            None => {
+                obs[ci] = Some("(bad-case)".into());
+                continue;
+            }
+        };
+        let kind = l.first().and_then(|x| x.as_atom()).unwrap_or("");
+        if kind == "front" {
+            let which = l.get(1).and_then(|x| x.as_atom()).unwrap_or("");
+            let text = l.get(2).and_then(src_text).unwrap_or_default();
+            // the case line must carry the real parser's verdict
+            if l.get(2).map(|s| s.render()) != Some(src_sx(&text).render()) {
+                obs[ci] = Some("(bad-case)".into());
+                continue;
+            }
+            obs[ci] = Some(front_obs(which, &text, &built).render());
+            continue;
+        }
+        let text = match l.get(1).and_then(src_text) {
+            Some(t) => t,
+            None => {
+                obs[ci] = Some("(bad-case)".into());
+                continue;
+            }
+        };
+        if l.get(1).map(|s| s.render()) != Some(src_sx(&text).render()) {
+            obs[ci] = Some("(bad-case)".into());
+            continue;
+        }
+        let p = &progs[&text];
+        let bin_ok = !p.stem.is_empty() && built.get(&p.stem).map(|r| r.built).unwrap_or(false);
+        match kind {
+            "compile" => {
+                let o = match &p.status {
+                    GenStatus::Rejected(k) => sx::tagged("compile", vec![sx::tagged("rej", vec![sx::atom(*k)])]),
+                    GenStatus::Panic(_) => sx::tagged("compile", vec![sx::atom("panic")]),
+                    GenStatus::Ok(out) => {
+                        let r = built.get(&p.stem).cloned().unwrap_or_default();
+                        let rustc = if r.built { sx::atom("ok") } else { category(&r.errors) };
+                        let (i, f) = items_sx(out);
+                        sx::tagged("compile", vec![sx::atom("ok"), sx::tagged("rustc", vec![rustc]), i, f])
+                    }
+                };
+                obs[ci] = Some(o.render());
+            }
+            "probe" | "call" | "raw" => {
+                if !bin_ok {
+                    obs[ci] = Some(format!("({} nobuild)", kind));
+                    if kind == "call" {
+                        *call_counter.entry(p.stem.clone()).or_insert(0) += 1;
+                    }
+                    continue;
+                }
+                let idl = p.idl.as_ref().unwrap();
+                let cmd = match kind {
+                    "probe" => {
+                        let root = l.get(2).map(|x| x.render()).unwrap_or_default();
+                        let path: Vec<String> = l.get(3).and_then(|x| x.as_list()).map(|pl| pl[1..].iter().filter_map(|x| x.as_str()).collect()).unwrap_or_default();
+                        match emitted_types(idl).into_iter().find(|e| e.root.render() == root && e.path == path) {
+                            Some(e) => sx::tagged("probe", vec![sx::xs(&e.rust), l.get(4).cloned().unwrap_or(sx::atom("n"))]).render(),
+                            None => {
+                                obs[ci] = Some("(probe no-such-type)".into());
+                                continue;
+                            }
+                        }
+                    }
+                    "call" => {
+                        let k = call_counter.entry(p.stem.clone()).or_insert(0);
+                        let c = format!("(call {})", *k);
+                        *k += 1;
+                        c
+                    }
+                    _ => {
+                        let req = l.get(2).and_then(|x| x.to_json()).unwrap_or(Value::Null);
+                        let mut b = serde_json::to_vec(&req).unwrap();
+                        b.push(0);
+                        sx::tagged("raw", vec![sx::bs(&b)]).render()
+                    }
+                };
+                cmds.entry(p.stem.clone()).or_default().push((ci, cmd));
+            }
+            _ => obs[ci] = Some("(bad-case)".into()),
+        }
+    }
+    // 3. run the binaries (in parallel)
+    let jobs: Vec<(String, Vec<(usize, String)>)> = cmds.into_iter().collect();
+    let results: Mutex<Vec<(usize, String)>> = Mutex::new(Vec::new());
+    let next = std::sync::atomic::AtomicUsize::new(0);
+    std::thread::scope(|s| {
+        for _ in 0..8 {
+            s.spawn(|| loop {
+                let i = next.fetch_add(1, std::sync::atomic::Ordering::SeqCst);
+                if i >= jobs.len() {
+                    break;
+                }
+                let (stem, list) = &jobs[i];
+                let lines = build::run_bin(stem, &list.iter().map(|x| x.1.clone()).collect::<Vec<_>>());
+                let mut r = results.lock().unwrap();
+                for (j, (ci, _)) in list.iter().enumerate() {
+                    r.push((*ci, lines.get(j).cloned().unwrap_or_else(|| "(probe-binary-died)".into())));
+                }
+            });
+        }
+    });
+    for (ci, o) in results.into_inner().unwrap() {
+        obs[ci] = Some(o);
+    }
+    let obs: Vec<String> = obs.into_iter().map(|o| o.unwrap_or_else(|| "(missing)".into())).collect();
+    let _ = std::fs::create_dir_all(cache.parent().unwrap());
+    let _ = std::fs::write(&cache, obs.join("\n") + "\n");
+    lines.into_iter().zip(obs).collect()
+}
+
+impl Suite for GenSuite {
+    fn generate(&self, ctx: &Ctx) -> Vec<Case> {
+        let cases = all_cases(ctx);
+        if let Ok(p) = std::env::var("VERIF_GEN_WRITE_CORPUS") {
+            let mut s = String::new();
+            for c in cases.iter().filter(|c| c.tags.iter().any(|t| t == "origin:witness") && c.tags.iter().any(|t| t == "kind:compile" || t.starts_with("excluded:"))) {
+                s.push_str(&c.input.render());
+                s.push('\n');
+            }
+            let _ = std::fs::write(p, s);
+        }
+        *PLANNED.lock().unwrap() = cases.iter().map(|c| c.input.render()).collect();
+        cases
+    }
+
+    fn setup(&self, _ctx: &Ctx) {
+        let planned: Vec<String> = PLANNED.lock().unwrap().clone();
+        if planned.is_empty() {
+            return;
+        }
+        let parsed: Vec<Sx> = planned.iter().filter_map(|l| sx::parse(l)).collect();
+        let m = prepare(&parsed);
+        *PREPARED.lock().unwrap() = Some(m);
+    }
+
+    fn run(&self, _ctx: &Ctx, input: &Sx) -> Sx {
+        let key = input.render();
+        let hit = PREPARED.lock().unwrap().as_ref().and_then(|m| m.get(&key).cloned());
+        let line = match hit {
+            Some(l) => l,
+            None => {
+                // replay: a batch of one
+                let m = prepare(std::slice::from_ref(input));
+                m.get(&key).cloned().unwrap_or_else(|| "(missing)".into())
+            }
+        };
+        sx::parse(&line).unwrap_or_else(|| sx::atom("unparsable-observation"))
     }
 }
